@@ -823,5 +823,58 @@ def rule_r9(ctx) -> RuleResult:
     return rr
 
 
+def rule_r10(ctx) -> RuleResult:
+    """A template may occur on the expansion path more than once without any recursion: `{{wrap|{{#if:1|{{wrap|x}}}}}}` expands
+    the inner call while the outer one is still open (arguments are expanded in the caller's frame).  The reference semantics
+    reports a loop only when the path *repeats*.  So the loop detector may answer True only under -- or as the value of -- an
+    equality test between parts of the path (a pattern against what precedes it); answering True because the entry just pushed
+    is merely *present* further down turns such nestings into "Template loop detected" (seed C04-9B)."""
+    rr = RuleResult("C04.R10", "the loop detector answers True only where part of the path equals another part of it", min_instances=1)
+    dotted = "core.detect_expand_template_loop"
+    fn = ctx.fn(dotted)
+    parents = ctx.index.mod("core").parents
+    param = fn.args.args[0].arg if fn.args.args else "stack"
+    derived = {param}
+    changed = True
+    while changed:
+        changed = False
+        for a in ast.walk(fn):
+            if isinstance(a, ast.Assign) and len(a.targets) == 1 and isinstance(a.targets[0], ast.Name) and a.targets[0].id not in derived \
+                    and any(isinstance(x, ast.Subscript) and isinstance(x.value, ast.Name) and x.value.id in derived for x in ast.walk(a.value)):
+                derived.add(a.targets[0].id)
+                changed = True
+
+    def seq_part(e) -> bool:
+        return any((isinstance(x, ast.Subscript) and isinstance(x.slice, ast.Slice) and isinstance(x.value, ast.Name) and x.value.id in derived)
+                   or (isinstance(x, ast.Name) and x.id in derived - {param}) for x in ast.walk(e))
+
+    def repetition_test(e) -> bool:
+        return any(isinstance(c, ast.Compare) and len(c.ops) == 1 and isinstance(c.ops[0], ast.Eq) and seq_part(c.left) and seq_part(c.comparators[0])
+                   and any(isinstance(x, ast.Subscript) and isinstance(x.slice, ast.Slice) for x in ast.walk(c))
+                   for c in ast.walk(e))
+
+    rets = [r for r in walk_no_nested(fn) if isinstance(r, ast.Return) and r.value is not None]
+    if not rets:
+        raise AnalysisError("detect_expand_template_loop: no return found")
+    n_true = 0
+    for r in rets:
+        v = r.value
+        if isinstance(v, ast.Constant) and v.value is False:
+            continue
+        n_true += 1
+        conds = [t for t, truth in X.path_conditions(parents, r) if truth]
+        # any(...)/all(...) over a generator whose element is the repetition test counts as the value being the test
+        if repetition_test(v) or any(repetition_test(t) for t in conds):
+            rr.ok(dotted, "`{}` under / as a repetition test".format(unparse(r)[:50]))
+        else:
+            rr.bad(Finding("C04.R10", X.CORE, dotted, unparse(r)[:70],
+                           "the detector can answer True here without having compared one part of the path with another: a template that is "
+                           "merely present further down the path -- nested inside the value of its own argument through a parser function or "
+                           "another template -- is reported as a loop and its expansion is replaced by the error element", r.lineno))
+    if n_true == 0:
+        raise AnalysisError("detect_expand_template_loop: no return that can answer True")
+    return rr
+
+
 def run(ctx) -> list:
-    return [rule_r1(ctx), rule_r2(ctx), rule_r3(ctx), rule_r4(ctx), rule_r5(ctx), rule_r6(ctx), rule_r7(ctx), rule_r8(ctx), rule_r9(ctx)]
+    return [rule_r10(ctx), rule_r1(ctx), rule_r2(ctx), rule_r3(ctx), rule_r4(ctx), rule_r5(ctx), rule_r6(ctx), rule_r7(ctx), rule_r8(ctx), rule_r9(ctx)]
